@@ -127,7 +127,7 @@ def check_unit(name, canary=True, timeout=600):
     """-> dict(ok, functions{fn: {success,time_ms,rlimit,mode}}, errors[{fn, obls, line, msg, text}], meta, wall, trusted)"""
     unit = load_unit(name)
     text, linemap, meta = build_unit(unit)
-    js, diags, wall = run_verus(text, name, timeout)
+    js, diags, wall = run_verus(text, name, timeout, unit.get("verus_args"))
     vr = js.get("verification-results", {})
     lines = text.splitlines()
     errors = []
@@ -174,7 +174,7 @@ def check_unit(name, canary=True, timeout=600):
            "smt_ms": js.get("times-ms", {}).get("smt", {}).get("smt-run")}
     if canary and res["ok"]:
         ctext = text.replace("\n} // verus!", "\nproof fn pv_canary_must_fail() { assert(false); }\n} // verus!")
-        cjs, cdiags, cwall = run_verus(ctext, name + "_canary", timeout)
+        cjs, cdiags, cwall = run_verus(ctext, name + "_canary", timeout, unit.get("verus_args"))
         cvr = cjs.get("verification-results", {})
         res["canary_ok"] = (cvr.get("errors") == 1 and not cvr.get("success"))
         res["wall"] += cwall
